@@ -25,19 +25,21 @@ D = {  # id: (caught_by, first_run, strengthening)
  "C20_1": (["C20"], "caught", None),
  "C20_2": (["C20", "C08 (translator)"], "caught", None),
  "C12_1": (["C12", "C01"], "caught", None),
- "C12_2": (["C05"], "missed by C12, C01, C05", "vlib/props/c05.py checks reported string names / matches per rule; C12 strengthening by its owner (see notes/C12.md)"),
- "C14_1": ([], "missed", "pending: C14 owner adds atomized strings whose single hit yields a batch crossing the limit (see notes/C14.md)"),
- "C14_2": (["C05"], "missed by C14", "C05 catches it; C14 record check strengthened by its owner (see notes/C14.md)"),
- "C17_1": ([], "missed", "pending: cap-approaching synthetic inputs (see notes/C17.md)"),
- "C17_2": ([], "missed", "pending: idempotence across buffer alignments (see notes/C17.md)"),
+ "C12_2": (["C05", "C12"], "missed by C12, C01, C05", "vlib/props/c05.py checks reported string names / matches per rule; vlib/props/c12.py: private rules / private strings / xor strings in A and B, whole reported rule compared (union vs alone vs model report)"),
+ "C14_1": (["C14"], "missed", "vlib/props/c14.py: atomized strings whose single atom hit yields a batch of matches crossing the limit, limits 1, 2, N+-2"),
+ "C14_2": (["C05", "C14"], "missed by C14", "vlib/props/c14.py: reference run alone, limited run inside a rule set with false globals / private rules; every record must be an occurrence of that string"),
+ "C17_1": (["C17", "C09"], "missed", "vlib/props/_modgen.py: 62 synthetic files around every reachable cap; integer caps translated (ModuleTrees.v int_caps)"),
+ "C17_2": (["C17"], "missed", "harness/src/modval.rs: the same bytes scanned again from buffers at address = 1..7 mod 16; results must be equal"),
  "C18_1": (["C18"], "caught", None),
- "C18_2": ([], "missed", "pending: large events (> 8 KiB) with several threads (see notes/C18.md)"),
+ "C18_2": (["C18"], "missed", "vlib/props/c18.py: large-event cases (1000-2000 matches per event, > 8/16/64 KiB, 2-16 workers)"),
  "C13_1": (["C13"], "missed", "vlib/props/c13.py: concurrent rule sets cover every matcher kind owning per-thread caches (wide + \\b etc.); worker panics reported per job"),
  "C13_2": (["C13"], "caught", None),
  "C09_1": (["C09"], "caught", None),
- "C09_2": (["C16"], "missed by C09", "pending: C09 fragmented layouts with tiny regions and streaming math/hash calls (see notes/C09.md)"),
- "C02_1": (["C01", "C14 (broken tie)"], "missed by C02", "pending: C02 generator (shared-prefix alternatives of different lengths) (see notes/C02.md)"),
+ "C09_2": (["C16", "C09"], "missed by C09", "vlib/props/c09.py: adjacent 1-8-byte regions (legacy mode) with streaming math / hash rules over ranges crossing several regions"),
+ "C02_1": (["C01", "C14 (broken tie)", "C02"], "missed by C02", "vlib/props/c02.py: generator family of shared-prefix alternatives of different lengths followed by a jump"),
  "C02_2": (["C02"], "caught", None),
+ "C07_1": ([], "pending", None),
+ "C07_2": ([], "pending", None),
 }
 for sid, (by, first, how) in D.items():
     d = "/verif/seeded/" + sid
